@@ -1387,7 +1387,12 @@ func (c *Conn) readAndProcessDatagram(ctx context.Context) (datagramProcessingSu
 
 	pkts, err := c.unpackDatagram(b[:i])
 	if err != nil {
-		return datagramProcessingSummary{}, err
+		// A datagram that cannot be split into records is silently discarded
+		// [RFC 6347 Section 4.1.2.7, RFC 9147 Section 4.5.2]: reporting it would stop
+		// the read loop during the handshake, so one spoofed datagram could kill it.
+		c.log.Debugf("discarded malformed datagram: %v", err)
+
+		return datagramProcessingSummary{}, nil
 	}
 
 	var summary datagramProcessingSummary
